@@ -59,18 +59,26 @@ struct ra_it {
     friend auto operator>=(ra_it a, ra_it c) -> bool { return a.i >= c.i; }
 };
 
-// ---- comparators / predicates: selector c: 0 less, 1 greater, 2 modulo-equivalence
+// ---- comparators / predicates. Comparator selector c: 0 less, 1 greater, 2 modulo-equivalence on the low two bits (x mod 4 of the
+// two's complement value: many distinct-but-equivalent elements, cheap for the SAT solver), 3 modulo-equivalence a % 3 < b % 3 (one
+// 32-bit divider per operand: only used in the *_mod3 groups with a smaller length bound)
+struct low2_less { auto operator()(int const& a, int const& b) const -> bool { return (a & 3) < (b & 3); } };
 struct mod3_less { auto operator()(int const& a, int const& b) const -> bool { return a % 3 < b % 3; } };
+struct low2_eq { auto operator()(int const& a, int const& b) const -> bool { return (a & 3) == (b & 3); } };
 struct mod3_eq { auto operator()(int const& a, int const& b) const -> bool { return a % 3 == b % 3; } };
+struct is_mult4 { auto operator()(int const& x) const -> bool { return (x & 3) == 0; } };
 struct is_mult3 { auto operator()(int const& x) const -> bool { return x % 3 == 0; } };
 struct is_neg { auto operator()(int const& x) const -> bool { return x < 0; } };
 struct kt { int key; int tag; };
 struct kt_less { auto operator()(kt const& a, kt const& b) const -> bool { return a.key < b.key; } };
 struct kt_greater { auto operator()(kt const& a, kt const& b) const -> bool { return a.key > b.key; } };
+struct kt_low2 { auto operator()(kt const& a, kt const& b) const -> bool { return (a.key & 3) < (b.key & 3); } };
 struct kt_mod3 { auto operator()(kt const& a, kt const& b) const -> bool { return a.key % 3 < b.key % 3; } };
-struct kt_is_mult3 { auto operator()(kt const& x) const -> bool { return x.key % 3 == 0; } };
-#define CMP_INT(c, ...) do { if ((c) == 0) { auto cmp = etl::less(); __VA_ARGS__; } else if ((c) == 1) { auto cmp = etl::greater(); __VA_ARGS__; } else { auto cmp = mod3_less{}; __VA_ARGS__; } } while (0)
-#define CMP_KT(c, ...) do { if ((c) == 0) { auto cmp = kt_less{}; __VA_ARGS__; } else if ((c) == 1) { auto cmp = kt_greater{}; __VA_ARGS__; } else { auto cmp = kt_mod3{}; __VA_ARGS__; } } while (0)
+struct kt_is_mult4 { auto operator()(kt const& x) const -> bool { return (x.key & 3) == 0; } };
+#define CMP_INT(c, ...) do { if ((c) == 0) { auto cmp = etl::less(); __VA_ARGS__; } else if ((c) == 1) { auto cmp = etl::greater(); __VA_ARGS__; } else if ((c) == 2) { auto cmp = low2_less{}; __VA_ARGS__; } else { auto cmp = mod3_less{}; __VA_ARGS__; } } while (0)
+#define CMP_KT(c, ...) do { if ((c) == 0) { auto cmp = kt_less{}; __VA_ARGS__; } else if ((c) == 1) { auto cmp = kt_greater{}; __VA_ARGS__; } else if ((c) == 2) { auto cmp = kt_low2{}; __VA_ARGS__; } else { auto cmp = kt_mod3{}; __VA_ARGS__; } } while (0)
+#define PRED1(p, ...) do { if ((p) == 0) { auto pred = is_mult4{}; __VA_ARGS__; } else if ((p) == 1) { auto pred = is_neg{}; __VA_ARGS__; } else { auto pred = is_mult3{}; __VA_ARGS__; } } while (0)
+#define PEQ(p, ...) do { if ((p) == 0) { auto pred = etl::equal_to(); __VA_ARGS__; } else if ((p) == 1) { auto pred = low2_eq{}; __VA_ARGS__; } else { auto pred = mod3_eq{}; __VA_ARGS__; } } while (0)
 
 // ---- rotate / shift
 VF_E int* a_rotate(int* f, int* m, int* l) { return etl::rotate(f, m, l); }
@@ -82,25 +90,25 @@ VF_E int* a_shift_right(int* f, int* l, diff_t n) { return etl::shift_right(f, l
 VF_E int* a_shift_right_bidi(int* f, int* l, diff_t n) { return etl::shift_right(bidi_it{f}, bidi_it{l}, n).p; }
 
 // ---- partition family
-VF_E int* a_partition(int* f, int* l, int p) { return p == 0 ? etl::partition(f, l, is_mult3{}) : etl::partition(f, l, is_neg{}); }
-VF_E int* a_partition_fwd(int* f, int* l, int p) { return p == 0 ? etl::partition(fwd_it{f}, fwd_it{l}, is_mult3{}).p : etl::partition(fwd_it{f}, fwd_it{l}, is_neg{}).p; }
-VF_E diff_t a_partition_ra(int* b, diff_t n, int p) { return p == 0 ? etl::partition(ra_it{b, 0}, ra_it{b, n}, is_mult3{}).i : etl::partition(ra_it{b, 0}, ra_it{b, n}, is_neg{}).i; }
-VF_E kt* a_stable_partition(kt* f, kt* l) { return etl::stable_partition(f, l, kt_is_mult3{}); }
+VF_E int* a_partition(int* f, int* l, int p) { int* r = nullptr; PRED1(p, r = etl::partition(f, l, pred)); return r; }
+VF_E int* a_partition_fwd(int* f, int* l, int p) { int* r = nullptr; PRED1(p, r = etl::partition(fwd_it{f}, fwd_it{l}, pred).p); return r; }
+VF_E kt* a_stable_partition(kt* f, kt* l) { return etl::stable_partition(f, l, kt_is_mult4{}); }
 VF_E void a_partition_copy(int const* f, int const* l, int* dt, int* df, int** rt, int** rf)
 {
-    auto r = etl::partition_copy(f, l, dt, df, is_mult3{});
+    auto r = etl::partition_copy(f, l, dt, df, is_mult4{});
     *rt = r.first;
     *rf = r.second;
 }
 
 // ---- sorting
-VF_E void a_sort(int* f, int* l, int c) { if (c == 0) { etl::sort(f, l); } else if (c == 1) { etl::sort(f, l, etl::greater()); } else { etl::sort(f, l, mod3_less{}); } }
-VF_E void a_gnome_sort(int* f, int* l, int c) { if (c == 0) { etl::gnome_sort(f, l); } else if (c == 1) { etl::gnome_sort(f, l, etl::greater()); } else { etl::gnome_sort(f, l, mod3_less{}); } }
+VF_E void a_sort(int* f, int* l, int c) { if (c == 0) { etl::sort(f, l); } else { CMP_INT(c, etl::sort(f, l, cmp)); } }
+VF_E void a_gnome_sort(int* f, int* l, int c) { if (c == 0) { etl::gnome_sort(f, l); } else { CMP_INT(c, etl::gnome_sort(f, l, cmp)); } }
+VF_E void a_gnome_sort_ra(int* f, int* l, int c) { CMP_INT(c, etl::gnome_sort(ra_it{f, 0}, ra_it{f, l - f}, cmp)); }
 VF_E void a_gnome_sort_bidi(int* f, int* l, int c) { CMP_INT(c, etl::gnome_sort(bidi_it{f}, bidi_it{l}, cmp)); }
-VF_E void a_bubble_sort(int* f, int* l, int c) { if (c == 0) { etl::bubble_sort(f, l); } else if (c == 1) { etl::bubble_sort(f, l, etl::greater()); } else { etl::bubble_sort(f, l, mod3_less{}); } }
-VF_E void a_exchange_sort(int* f, int* l, int c) { if (c == 0) { etl::exchange_sort(f, l); } else if (c == 1) { etl::exchange_sort(f, l, etl::greater()); } else { etl::exchange_sort(f, l, mod3_less{}); } }
-VF_E void a_partial_sort(int* f, int* m, int* l, int c) { if (c == 0) { etl::partial_sort(f, m, l); } else if (c == 1) { etl::partial_sort(f, m, l, etl::greater()); } else { etl::partial_sort(f, m, l, mod3_less{}); } }
-VF_E void a_nth_element(int* f, int* m, int* l, int c) { if (c == 0) { etl::nth_element(f, m, l); } else if (c == 1) { etl::nth_element(f, m, l, etl::greater()); } else { etl::nth_element(f, m, l, mod3_less{}); } }
+VF_E void a_bubble_sort(int* f, int* l, int c) { if (c == 0) { etl::bubble_sort(f, l); } else { CMP_INT(c, etl::bubble_sort(f, l, cmp)); } }
+VF_E void a_exchange_sort(int* f, int* l, int c) { if (c == 0) { etl::exchange_sort(f, l); } else { CMP_INT(c, etl::exchange_sort(f, l, cmp)); } }
+VF_E void a_partial_sort(int* f, int* m, int* l, int c) { if (c == 0) { etl::partial_sort(f, m, l); } else { CMP_INT(c, etl::partial_sort(f, m, l, cmp)); } }
+VF_E void a_nth_element(int* f, int* m, int* l, int c) { if (c == 0) { etl::nth_element(f, m, l); } else { CMP_INT(c, etl::nth_element(f, m, l, cmp)); } }
 VF_E void a_stable_sort(kt* f, kt* l, int c) { CMP_KT(c, etl::stable_sort(f, l, cmp)); }
 VF_E void a_insertion_sort(kt* f, kt* l, int c) { CMP_KT(c, etl::insertion_sort(f, l, cmp)); }
 VF_E void a_merge_sort(kt* f, kt* l, int c) { CMP_KT(c, etl::merge_sort(f, l, cmp)); }
@@ -112,22 +120,24 @@ VF_E void a_merge_sort_int(int* f, int* l) { etl::merge_sort(f, l); }
 VF_E bool a_is_permutation3(int const* f, int const* l, int const* f2) { return etl::is_permutation(f, l, f2); }
 VF_E bool a_is_permutation4(int const* f, int const* l, int const* f2, int const* l2) { return etl::is_permutation(f, l, f2, l2); }
 VF_E bool a_is_permutation4_fwd(int* f, int* l, int* f2, int* l2) { return etl::is_permutation(fwd_it{f}, fwd_it{l}, fwd_it{f2}, fwd_it{l2}); }
-VF_E int const* a_search(int const* f, int const* l, int const* sf, int const* sl, int p) { return p == 0 ? etl::search(f, l, sf, sl) : etl::search(f, l, sf, sl, mod3_eq{}); }
-VF_E int* a_search_fwd(int* f, int* l, int* sf, int* sl, int p) { return p == 0 ? etl::search(fwd_it{f}, fwd_it{l}, fwd_it{sf}, fwd_it{sl}).p : etl::search(fwd_it{f}, fwd_it{l}, fwd_it{sf}, fwd_it{sl}, mod3_eq{}).p; }
-VF_E int const* a_find_end(int const* f, int const* l, int const* sf, int const* sl, int p) { return p == 0 ? etl::find_end(f, l, sf, sl) : etl::find_end(f, l, sf, sl, mod3_eq{}); }
-VF_E int const* a_search_n(int const* f, int const* l, int count, int const& v, int p) { return p == 0 ? etl::search_n(f, l, count, v) : etl::search_n(f, l, count, v, mod3_eq{}); }
-VF_E int const* a_find_first_of(int const* f, int const* l, int const* sf, int const* sl, int p) { return p == 0 ? etl::find_first_of(f, l, sf, sl) : etl::find_first_of(f, l, sf, sl, mod3_eq{}); }
+VF_E int const* a_search(int const* f, int const* l, int const* sf, int const* sl, int p) { if (p == 0) { return etl::search(f, l, sf, sl); } int const* r = nullptr; PEQ(p, r = etl::search(f, l, sf, sl, pred)); return r; }
+VF_E int* a_search_fwd(int* f, int* l, int* sf, int* sl, int p) { if (p == 0) { return etl::search(fwd_it{f}, fwd_it{l}, fwd_it{sf}, fwd_it{sl}).p; } int* r = nullptr; PEQ(p, r = etl::search(fwd_it{f}, fwd_it{l}, fwd_it{sf}, fwd_it{sl}, pred).p); return r; }
+VF_E int const* a_find_end(int const* f, int const* l, int const* sf, int const* sl, int p) { if (p == 0) { return etl::find_end(f, l, sf, sl); } int const* r = nullptr; PEQ(p, r = etl::find_end(f, l, sf, sl, pred)); return r; }
+VF_E int const* a_search_n(int const* f, int const* l, int count, int const& v, int p) { if (p == 0) { return etl::search_n(f, l, count, v); } int const* r = nullptr; PEQ(p, r = etl::search_n(f, l, count, v, pred)); return r; }
+VF_E int const* a_find_first_of(int const* f, int const* l, int const* sf, int const* sl, int p) { if (p == 0) { return etl::find_first_of(f, l, sf, sl); } int const* r = nullptr; PEQ(p, r = etl::find_first_of(f, l, sf, sl, pred)); return r; }
 VF_E bool a_includes(int const* f1, int const* l1, int const* f2, int const* l2, int c)
 {
     if (c == 0) { return etl::includes(f1, l1, f2, l2); }
-    if (c == 1) { return etl::includes(f1, l1, f2, l2, etl::greater()); }
-    return etl::includes(f1, l1, f2, l2, mod3_less{});
+    bool r = false;
+    CMP_INT(c, r = etl::includes(f1, l1, f2, l2, cmp));
+    return r;
 }
 
 // ---- merging and set operations ({key,tag} elements: which range an output element comes from is observable)
 VF_E kt* a_merge(kt const* f1, kt const* l1, kt const* f2, kt const* l2, kt* d, int c) { kt* r = nullptr; CMP_KT(c, r = etl::merge(f1, l1, f2, l2, d, cmp)); return r; }
 VF_E int* a_merge_int(int const* f1, int const* l1, int const* f2, int const* l2, int* d) { return etl::merge(f1, l1, f2, l2, d); }
 VF_E int* a_merge_fwd(int* f1, int* l1, int* f2, int* l2, int* d) { return etl::merge(fwd_it{f1}, fwd_it{l1}, fwd_it{f2}, fwd_it{l2}, fwd_it{d}).p; }
+VF_E diff_t a_merge_ra(int* a, diff_t na, int* b, diff_t nb, int* d) { return etl::merge(ra_it{a, 0}, ra_it{a, na}, ra_it{b, 0}, ra_it{b, nb}, ra_it{d, 0}).i; }
 VF_E void a_inplace_merge(kt* f, kt* m, kt* l, int c) { CMP_KT(c, etl::inplace_merge(f, m, l, cmp)); }
 VF_E void a_inplace_merge_int(int* f, int* m, int* l) { etl::inplace_merge(f, m, l); }
 VF_E kt* a_set_union(kt const* f1, kt const* l1, kt const* f2, kt const* l2, kt* d, int c) { kt* r = nullptr; CMP_KT(c, r = etl::set_union(f1, l1, f2, l2, d, cmp)); return r; }
